@@ -4,7 +4,7 @@ import "strings"
 
 func init() {
 	register("C10", []string{"./..."}, func(p *Prog, r *Report) {
-		r.Engines = []string{"effects(EFF-SHARED,EFF-OPTSLICE,EFF-RESET,EFF-LOCK,EFF-DCL)", "pooluaf(POOL-UAF)", "conc(CONC-CTX,CONC-CLOSE,CONC-DAG,CONC-SIGNAL)", "sibling"}
+		r.Engines = []string{"effects(EFF-SHARED,EFF-OPTSLICE,EFF-GLOBALREF,EFF-RESET,RESET-DEF,EFF-LOCK,EFF-DCL)", "pooluaf(POOL-UAF,POOL-DOUBLE)", "conc(CONC-CTX,CONC-CLOSE,CONC-DAG,CONC-SIGNAL)", "sibling"}
 		r.Explanation = "Static effect and channel-protocol analysis. Decided: (EFF-SHARED) no function reachable (restricted call graph) from (*system).Solve, groth16/plonk Prove and Verify on any curve stores into an object of a shared type (constraint.System, per-curve system, coefficient table, any constraint.Blueprint implementation, proving/verifying keys, PLONK trace) that it did not allocate itself; (EFF-OPTSLICE) every append whose base derives from ProverConfig.SolverOpts works on a three-index slice with cap==len; (EFF-RESET) in Solve the stateful-blueprint Reset loop precedes solver.run on every path; (EFF-LOCK) lock-guarded package-level registries are accessed under their mutex; (EFF-DCL) no method pre-checks, outside the lock, a field that it writes under a mutex of the same object (double-checked locking); (POOL-UAF) every object handed back to a shared pool (big.Int pool, polynomial memory pool, sync.Pool) by solver / prover code is neither used after the release nor escapes the releasing function; the PLONK/Groth16 channel protocol rules of C03 (no wait can block forever). NOT decided: equality of results across schedules, caller-shared hash.Hash option values, races inside gnark-crypto."
 		r.RuleText = "one obligation per function reachable from the entry points (no shared write) or per shared write / append / access site; nontrivial = a site needing a witness (capped slice, dominating lock, reviewed reason)"
 		r.Assumptions = []string{"call graph: static callees + CHA on gnark-declared interfaces + signature-matched function values; foreign interface methods write only their receiver and arguments", "objects allocated inside the call (solver, PLONK instance, Proof in Prove) are recognised by allocation site"}
@@ -27,6 +27,7 @@ func init() {
 		ee.RunOptSlice(r)
 		ee.RunOptParam(r)
 		ee.RunGlobalRef(r)
+		r.Explanation += " Also decided: EFF-OPTSLICE covers appends to option slices received as (variadic) parameters (found F13, repaired); (EFF-GLOBALREF) a map or slice held in a package-level variable is handed out as a copy, never itself; (POOL-DOUBLE) no object is released both by a deferred and by a plain release; (RESET-DEF) Reset assigns every field that Solve writes on a stateful blueprint, on every path."
 		ee.RunResetOrder(r)
 		RunResetDef(p, r)
 		r.RequireMin("RESET-DEF", 2)
@@ -63,6 +64,8 @@ func init() {
 		RunHtfAgree(p, r)
 		RunSibling(p, r, "C03")
 		RunOrderGuardDomain(p, r)
+		r.Engines = append(r.Engines, "ordguard(ORDER-GUARD)")
+		r.Explanation += " ORDER-GUARD: newInstance is interpreted abstractly (conditional constant propagation) for system sizes 2..2^20; the domain stored in domain1 always has at least 3(n+2) points, n the cardinality of domain0."
 		r.RequireMin("ORDER-GUARD", 7)
 		r.RequireMin("CONC-CTX", 7*12)
 		r.RequireMin("CONC-CLOSE", 7*9)
